@@ -155,7 +155,9 @@ func parseExprWithPrecedence(lex *lexer.PeekingLexer, minPrec int) (Expression, 
 			}
 		case tok.Type == TokenTypeOpenBracket:
 			if minPrec >= 5 {
-				break
+				// The subscript belongs to an operand further out. (A bare 'break' here only left the
+				// switch, and the loop then looked at the same '[' forever.)
+				return lhs, nil
 			}
 			lhs, err = parseSubscript(lex, lhs)
 			if err != nil {
